@@ -14,6 +14,9 @@
                    wake1   w.blocker.unpark()        wake2  w.unparked.store(true)
                    wake3   w.release.swap(false) ?  unlock() : continue
                    w5park  cur.park(None)  -> Ok | Err(Canceled)            (Env.abort)
+                           | Err(Canceled) while cancellation is disabled (Env.abortIgnore: the re-lock inside
+                             Condvar::wait; `b_ignore` in the code) → i6load
+                   i6load  cur.is_unparked() ? break (the lock was handed over) : park again      (code after fix F11)
                    w6load  cur.is_unparked() ? unlock()
                    w7set   cur.set_release()     w8load  cur.is_unparked()   w9swap cur.take_release() ? unlock()
       try_lock():  t0cas   cnt.compare_exchange(0,1)
@@ -38,13 +41,13 @@ inductive Pc
   | idle
   | m0cas | t0cas | w1push (b : Bid) | w2fsub (b : Bid) | w3pop (k : K)
   | wake1 (w : Bid) (k : K) | wake2 (w : Bid) (k : K) | wake3 (w : Bid) (k : K)
-  | w5park (b : Bid) | w6load (b : Bid) | w7set (b : Bid) | w8load (b : Bid) | w9swap (b : Bid)
+  | w5park (b : Bid) | i6load (b : Bid) | w6load (b : Bid) | w7set (b : Bid) | w8load (b : Bid) | w9swap (b : Bid)
   | p0fadd (k : K)
   | held
   deriving DecidableEq, Repr
 
 /-- environment / caller choices: which API is called, whether a park ends by cancellation -/
-inductive Env | startLock | startTry | unlock | abort | go
+inductive Env | startLock | startTry | unlock | abort | abortIgnore | go
   deriving DecidableEq, Repr
 
 /-- owner's abort phase / waker's phase, per blocker (ghost) -/
@@ -101,6 +104,12 @@ def tstep (sh : Sh) (me : Tid) : Pc → Env → Option (Sh × Pc)
                       pb := if sh.release w then none else sh.pb },
             if sh.release w then .p0fadd k else contK k)
   | .w5park b, .abort => some ({ sh with aph := upd sh.aph b .a1 }, .w6load b)
+  | .w5park b, .abortIgnore => some (sh, .i6load b)
+  | .i6load b, _ =>
+      -- cancel ignored: a delivered lock is kept (the hand-over is consumed), otherwise keep waiting; the release
+      -- action is never registered on this path (fix F11)
+      if sh.unparked b then some ({ sh with tok := upd sh.tok b false, cons := upd sh.cons b true, pb := none }, .held)
+      else some (sh, .w5park b)
   | .w5park b, _ => if sh.tok b then some ({ sh with tok := upd sh.tok b false, cons := upd sh.cons b true, pb := none }, .held) else none
   | .w6load b, _ =>
       if sh.unparked b then some ({ sh with aph := upd sh.aph b .a5, duty := upd sh.duty b true, dup := sh.dup || sh.duty b, pb := none }, .p0fadd .fin)
